@@ -19,7 +19,8 @@ CONSTANTS K,            \* services (= listener tokens) 1..K
           IgnoreTimeout,       \* graceful stop never gives up
           ForcedWaits,         \* forced stop waits like a graceful one
           LifoQueue,           \* connections are taken newest first
-          DrainOnlyAtStop      \* queued connections are released when the stop is received, not in the shutdown state
+          DrainOnlyAtStop,     \* queued connections are released when the stop is received, not in the shutdown state
+          ErrKeepsPolling      \* a readiness pass goes on after a failed check: later failures are consumed, only the first is restarted
 
 Svc == 1..K
 
@@ -52,15 +53,19 @@ Total(m) == Len(m.cq) + Cardinality(m.live)
 Ev(m, e) == [m EXCEPT !.ev = Append(@, e)]
 
 \* check_readiness from service k on; returns <<machine, "true" | "false" | "err", failing service>>
-RECURSIVE CheckFrom(_, _, _)
-CheckFrom(m, k, ready) ==
-  IF k > K THEN <<m, IF ready THEN "true" ELSE "false", 0>>
-  ELSE IF m.status[k] \notin {"Available", "Unavailable"} THEN CheckFrom(m, k + 1, ready)
+RECURSIVE CheckFromF(_, _, _, _)
+CheckFromF(m, k, ready, fail) ==
+  IF k > K THEN (IF fail # 0 THEN <<m, "err", fail>> ELSE <<m, IF ready THEN "true" ELSE "false", 0>>)
+  ELSE IF m.status[k] \notin {"Available", "Unavailable"} THEN CheckFromF(m, k + 1, ready, fail)
   ELSE LET a  == IF m.rs[k] = <<>> THEN 1 ELSE Head(m.rs[k])
            m1 == Ev([m EXCEPT !.rs[k] = IF @ = <<>> THEN @ ELSE Tail(@)], [t |-> "ready", k |-> k, a |-> a])
-       IN CASE a = 1 -> CheckFrom([m1 EXCEPT !.status[k] = "Available"], k + 1, ready)
-            [] a = 0 -> CheckFrom([m1 EXCEPT !.status[k] = "Unavailable"], k + 1, FALSE)
-            [] OTHER -> <<[m1 EXCEPT !.status[k] = "Failed"], "err", k>>
+       IN CASE a = 1 -> CheckFromF([m1 EXCEPT !.status[k] = "Available"], k + 1, ready, fail)
+            [] a = 0 -> CheckFromF([m1 EXCEPT !.status[k] = "Unavailable"], k + 1, FALSE, fail)
+            [] OTHER -> IF ErrKeepsPolling
+                          THEN CheckFromF(IF fail = 0 THEN [m1 EXCEPT !.status[k] = "Failed"] ELSE m1, k + 1, ready,
+                                          IF fail = 0 THEN k ELSE fail)
+                          ELSE <<[m1 EXCEPT !.status[k] = "Failed"], "err", k>>     \* the pass ends at the first failure
+CheckFrom(m, k, ready) == CheckFromF(m, k, ready, 0)
 
 Restart(m, k) ==
   IF RestartAll
@@ -214,6 +219,11 @@ C07_Fifo == fifoOk
 Failures(e, k) == Cardinality({p \in 1..Len(e) : e[p].t = "ready" /\ e[p].k = k /\ e[p].a = 2})
 C07_RestartOnlyFailedStep ==
   \A k \in Svc : created'[k] - created[k] <= Failures(pe', k) + (IF status[k] = "Restarting" THEN 1 ELSE 0)
+\* a service whose readiness check failed is re-created: within the same poll, or it is left marked for re-creation
+C07_FailedIsRecreatedStep ==
+  \A p \in 1..Len(pe') : (pe'[p].t = "ready" /\ pe'[p].a = 2) =>
+     \/ \E q \in (p + 1)..Len(pe') : pe'[q].t = "create" /\ pe'[q].k = pe'[p].k
+     \/ status'[pe'[p].k] \in {"Failed", "Restarting"}
 \* nothing queued is lost: after a poll that ends Available with every script exhausted the queue is empty
 C07_NoneLostStep == (act'.n = "Poll" /\ ws' = "Available" /\ \A k \in Svc : rs'[k] = <<>>) => cq' = <<>>
 C07_AllAccounted == \A c \in 1..nconn : Cardinality({x \in {"q", "called", "drained"} :
@@ -239,7 +249,7 @@ C01_NoCallInShutdownStep == (act'.n = "Poll" /\ waiting') => \A p \in 1..Len(pe'
 \* liveness: every stop is answered
 C06w_StopAnswered == [](sq # <<>> => <>(sq = <<>>)) /\ [](waiting => <>(~waiting))
 
-Steps == [][/\ C07_CallOnlyAfterAllReadyStep /\ C07_RestartOnlyFailedStep /\ C07_NoneLostStep
+Steps == [][/\ C07_CallOnlyAfterAllReadyStep /\ C07_RestartOnlyFailedStep /\ C07_FailedIsRecreatedStep /\ C07_NoneLostStep
             /\ C01_ShutdownDrainsQueueStep /\ C06w_RepliesStep /\ C06w_GracefulNotEarlyStep /\ C06w_ForcedImmediateStep /\ C06w_TrueMeansIdleStep /\ C01_NoCallInShutdownStep]_vars
 
 LogEdge == PrintT(<<"EDGE", ToJson([from |-> View, act |-> act', to |-> View'])>>)
